@@ -181,10 +181,38 @@ class Crafter:
         self.bomb_bytes = bomb_bytes
         self._bomb_plain = None
         self._cache: dict = {}
+        self.tokens: dict = {}
 
-    def plain(self, n: int) -> bytes:
+    NAMES = {("unary", "plain"): "echo", ("unary", "health_prefixed"): "health_check",
+             ("init", "plain"): "prodp", ("init", "health_prefixed"): "healthz", ("init", "health"): "health",
+             ("exchange", "plain"): "prodp", ("exchange", "health_prefixed"): "healthz", ("exchange", "health"): "health",
+             ("upload", "plain"): "__upload_url__"}
+
+    def target(self, route: str, mname: str):
+        """-> (method name, URL path)"""
+        name = self.NAMES[(route, mname)]
+        if route == "exchange" and mname == "plain" and self.rng.random() < 0.5:
+            name = "exch"
+        return name, {"unary": f"/{name}", "init": f"/{name}/init", "exchange": f"/{name}/exchange",
+                      "upload": "/__upload_url__/init"}[route]
+
+    def plain(self, n: int, route: str = "unary", name: str = "echo") -> bytes:
+        """a valid request of about n payload bytes for the route (what the client would send uncompressed)"""
+        import pyarrow as pa
+
+        from vf import world
         fill = self.rng.choice([b"A", b"vgi-rpc ", bytes(range(7)), b"\x00"])
-        return U.echo_body(self.server, n, fill=fill)
+        data = (fill * (n // len(fill) + 1))[:n]
+        if route == "unary":
+            return U.unary_body(self.server, name, {"data": data})
+        if route == "init":
+            return U.unary_body(self.server, name, {"pad": data})
+        if route == "upload":
+            return world.raw_request(b"__upload_url__", pa.schema([pa.field("count", pa.int64())]), {"count": 1},
+                                     md={b"x-pad": data})
+        rows = max(1, n // 8)
+        batch = pa.RecordBatch.from_pydict({"a": [self.rng.choice([0, 7, 1 << 40])] * rows}, schema=U.IN)
+        return world.ipc_stream(U.IN, [(batch, dict(self.tokens[name]))])
 
     def bomb_plain(self) -> bytes:
         if self._bomb_plain is None:
@@ -264,14 +292,15 @@ class Crafter:
 
 
 def concretise(case: dict, cr: Crafter, variant: int):
-    """abstract row -> (capv, Content-Encoding header or None, wire body, client's uncompressed bytes, disabled)."""
+    """abstract row -> (capv, Content-Encoding header or None, wire body, client's uncompressed bytes, disabled, path)."""
     rng = cr.rng
     codec, cap, enc, dec, decl, integ = case["codec"], case["cap"], case["enc"], case["dec"], case["decl"], case["integ"]
     boundary = variant == 0
     bomb = dec == "bomb"
     big = variant == "big"
     n = rng.randrange(150_000, 260_000) if big else rng.choice([10, 200, 3000, 20000, rng.randrange(10, 60000)])
-    plain = cr.bomb_plain() if bomb else cr.plain(n)
+    name, path = cr.target(case["route"], case["mname"])
+    plain = cr.bomb_plain() if bomb else cr.plain(n, case["route"], name)
     D = len(plain)
     rel_cap = lambda size, rel: (size + (1 if boundary else rng.randrange(1, 4000)) if rel == "lt" else size if rel == "eq"
                                  else max(1, size - (1 if boundary else rng.randrange(1, size))))
@@ -279,11 +308,11 @@ def concretise(case: dict, cr: Crafter, variant: int):
         body = plain
         capv = 0 if cap == "none" else rel_cap(len(body), enc)
         hdr = None if codec == "none" else rng.choice(SPELL["identity"]) if codec == "identity" else rng.choice(UNKNOWN)
-        return capv, hdr, body, plain, False
+        return capv, hdr, body, plain, False, path
     if codec == "disabled":
         body = U.zstd_frame(plain, sized=True)
         capv = 0 if cap == "none" else rel_cap(len(body), enc)
-        return capv, rng.choice(SPELL["zstd"]), body, plain, True
+        return capv, rng.choice(SPELL["zstd"]), body, plain, True, path
     # zstd / gzip
     key = ("bomb", codec) if bomb else None
     if cap == "none":
@@ -319,7 +348,7 @@ def concretise(case: dict, cr: Crafter, variant: int):
         rel = "lt" if len(body) < capv else "eq" if len(body) == capv else "gt"
         if rel != enc:
             raise Skip("wire size class not reached")
-    return capv, rng.choice(SPELL[codec]), body, plain, False
+    return capv, rng.choice(SPELL[codec]), body, plain, False, path
 
 
 # ------------------------------------------------------------------------------------------------ sandbox worker
@@ -343,7 +372,7 @@ def _worker(conn, bomb_bytes: int) -> None:
         msg = conn.recv()
         if msg is None:
             break
-        capv, disabled, hdr, body, plain, transfer, measure = msg
+        capv, disabled, hdr, body, plain, transfer, measure, path = msg
         if plain is None:
             if bomb_plain is None:
                 bomb_plain = U.echo_body(server, bomb_bytes, fill=b"\x00")
@@ -356,7 +385,8 @@ def _worker(conn, bomb_bytes: int) -> None:
             if disabled:
                 os.environ["VGI_HTTP_DISABLE_ZSTD"] = "1"
             try:
-                apps[k] = make_wsgi_app(server, token_key=b"k" * 32, max_request_bytes=(capv if capv else None))
+                apps[k] = make_wsgi_app(server, token_key=b"k" * 32, max_request_bytes=(capv if capv else None),
+                                        upload_url_provider=_Provider())
             finally:
                 os.environ.pop("VGI_HTTP_DISABLE_ZSTD", None)
                 if old is not None:
@@ -371,9 +401,9 @@ def _worker(conn, bomb_bytes: int) -> None:
             base_now = tracemalloc.get_traced_memory()[0]
         try:
             if transfer == "cl":
-                st, hd, out = U.wsgi_call(app, "POST", "/echo", body, headers)
+                st, hd, out = U.wsgi_call(app, "POST", path, body, headers)
             else:
-                st, hd, out = chunked.post(app, "/echo", body, headers, rng)
+                st, hd, out = chunked.post(app, path, body, headers, rng)
         finally:
             peak = 0
             if measure:
@@ -382,6 +412,15 @@ def _worker(conn, bomb_bytes: int) -> None:
         reached = COUNT.reached is not None
         conn.send({"status": st, "reached": reached, "equal": bool(reached and COUNT.reached == plain),
                    "capv": capv, "produced": COUNT.produced, "peak": peak, "_ctype": U.hget(hd, "content-type")})
+
+
+class _Provider:
+    def generate_upload_url(self, schema):
+        from datetime import datetime, timezone
+
+        from vgi_rpc.external import UploadUrl
+        return UploadUrl(upload_url="https://storage.invalid/put", download_url="https://storage.invalid/get",
+                         expires_at=datetime(2030, 1, 1, tzinfo=timezone.utc))
 
 
 class Sandbox:
@@ -433,7 +472,7 @@ def run(ctx: Ctx) -> None:
     consts = {"Chunk": CHUNK, "Slack": SLACK}
     invs = ["NeverEmpty", "OnlyClientErrors", "CleanBodiesPass", "OversizeNeverPasses", "UnknownNeverPasses",
             "DamagedNeverPasses", "ManyFramesLikeOne", "NoCapNo413", "IdentityIsTransparent", "SingleFaultExact",
-            "TransferIrrelevant"]
+            "TransferIrrelevant", "RouteIrrelevant"]
     cases = U.enumerate_split(ctx, "httpgate", "Decode", constants=consts, invariants=invs)
     ctx.exhaustive = True
     ctx.rule = ("case = consistent row of Decode!Space (cap, codec token, wire size class, decoded size class, size "
@@ -453,6 +492,14 @@ def run(ctx: Ctx) -> None:
 
     server, _impl = U.build_server()
     cr = Crafter(server, ctx.rng, bomb_bytes)
+    from vgi_rpc.http.server import make_wsgi_app as _mk
+    _papp = _mk(server, token_key=b"k" * 32)         # tokens are sealed with the app key only: mint them here
+    for _n in ("prodp", "healthz", "health", "exch"):
+        _body = U.unary_body(server, _n, {"pad": b"x"} if _n != "exch" else {})
+        _st, _hd, _b = U.wsgi_call(_papp, "POST", f"/{_n}/init", _body, {"Content-Type": U.ARROW_CT})
+        if _st != 200:
+            raise MachineryError(f"could not open stream {_n}: {_st}")
+        cr.tokens[_n] = U.tokens_of(_b)
     box = Sandbox(bomb_bytes)
     obs: list[dict] = []
     skipped: dict = {}
@@ -478,13 +525,13 @@ def run(ctx: Ctx) -> None:
                         skipped[str(e)] = skipped.get(str(e), 0) + 1
                 if built is None:
                     continue
-                capv, hdr, body, plain, disabled = built
+                capv, hdr, body, plain, disabled, path = built
                 if variant == "big":
                     big_rows += 1
                 done += 1
                 measure = case["dec"] == "bomb" or case["decl"] == "high_over"
                 is_bomb = case["dec"] == "bomb"
-                msg = (capv, disabled, hdr, body, None if is_bomb else plain, case["transfer"], measure)
+                msg = (capv, disabled, hdr, body, None if is_bomb else plain, case["transfer"], measure, path)
                 o = box.call(msg, TIMEOUT_S * (4 if is_bomb else 1))
                 if o is None:                                       # confirm in a fresh worker, three times as patient
                     o = box.call(msg, 3 * TIMEOUT_S * (4 if is_bomb else 1))
@@ -494,7 +541,7 @@ def run(ctx: Ctx) -> None:
                          "_ctype": None}
                 ctype = o.pop("_ctype")
                 obs.append({"case": case, "obs": o, "_e": cj["exp"], "_hang": hang,
-                            "_x": {"content_encoding": hdr, "wire_len": len(body), "plain_len": len(plain),
+                            "_x": {"path": path, "content_encoding": hdr, "wire_len": len(body), "plain_len": len(plain),
                                    "variant": variant, "ctype": ctype}})
                 ctx.case([case, capv, hdr, len(body), hash(body)])
             if done == 0:
@@ -510,6 +557,7 @@ def run(ctx: Ctx) -> None:
         for cl in clauses:
             ctx.violation(cl, {"codec": c["codec"], "cap": c["cap"], "enc": c["enc"], "dec": c["dec"], "decl": c["decl"],
                                "integ": c["integ"], "frames": c["frames"], "transfer": c["transfer"],
+                               "route": c["route"], "mname": c["mname"],
                                "status": o["obs"]["status"], "delivered_intact": o["obs"]["equal"],
                                "no_response": o["_hang"]},
                           {"row": c, "admissible": o["_e"], "concrete": o["_x"], "observed": o["obs"]})
